@@ -36,6 +36,21 @@ EXPECT = [
      "[i:10,i:20]", "for-in over a channel ends when it is closed"),
 ]
 
+# a go call evaluates its arguments before it starts: a dispatcher that hands ids to producers through one reused place
+# (list slot, element of a typed slice, map entry) and overwrites it straight away; every id must arrive exactly once
+for _init, _slot in (("slot = [0]", "slot[0]"), ("slot = make([]int64, 1)", "slot[0]"), ("slot = {\"k\": 0}", "slot.k"), ("slot = [[0]]", "slot[0][0]")):
+    for _what, _decl, _call in (
+            ("a script function (direct path)", "func produce(id, out) { out <- id }", "go produce(%s, c)"),
+            ("a script function of five parameters", "func produce(id, out, x, y, z) { out <- id }", "go produce(%s, c, 0, 0, 0)"),
+            ("a script function, the slot read last", "func produce(out, id) { out <- id }", "go produce(c, %s)"),
+            ("a variadic script function", "func produce(out, ids...) { out <- ids[0] }", "go produce(c, %s)"),
+            ("a function literal", "", "go func(id) { c <- id }(%s)"),
+            ("a Go function", "", "go hsend(c, %s)")):
+        EXPECT.append(("%s; c = make(chan interface, %%d); %s\nfor i in [1, 2, 3, 4, 5, 6, 7, 8] { %s = i; %s }; %s = 0\n"
+                       "seen = [0, 0, 0, 0, 0, 0, 0, 0, 0]; for k in [1, 2, 3, 4, 5, 6, 7, 8] { v = (<-c); seen[v] += 1 }; seen"
+                       % (_init, _decl, _slot, _call % _slot, _slot) % (0 if "five" in _what or "literal" in _what else 8),
+                       "[i:0,i:1,i:1,i:1,i:1,i:1,i:1,i:1,i:1]", "a go call of %s evaluates its arguments before it starts (ids handed over through %s)" % (_what, _slot)))
+
 
 def run(tier, seed, replay=None):
     res = Result(PID, tier, seed)
